@@ -234,6 +234,9 @@ def encode(lines, drop, dbl):
             if w == "NUL":
                 ws.append("8080")
                 continue
+            if w.startswith("S"):                 # a short text: one code word
+                ws.extend(C.text_words({"S1": "AB", "S2": "CD"}[w]))
+                continue
             if enc is None:
                 for tw in C.text_words("TEXT" + w[1:]):
                     ws.append(tw)
@@ -247,7 +250,9 @@ def encode(lines, drop, dbl):
     return C.scc_document(out), timeline
 
 
-def reference_times(timeline, drop, offset_s):
+def reference_times(timeline, drop, offset_s, band=0):
+    """band: the code decides the five-frame threshold with a tolerance of one microsecond (floats);
+    a gap of five frames up to five frames + `band` microseconds counts as closed as well"""
     rho = 1 if drop else Fraction(1001, 1000)
 
     def us(frames):
@@ -262,7 +267,7 @@ def reference_times(timeline, drop, offset_s):
             caps[-1][1] = us(fr)
     # a gap shorter than five frames before the next caption is closed
     for a, b in zip(caps, caps[1:]):
-        if a[1] is not None and b[0] - a[1] < 5 * FRAME:
+        if a[1] is not None and b[0] - a[1] < 5 * FRAME + band:
             a[1] = b[0]
     if caps and caps[-1][1] is None:
         caps[-1][1] = caps[-1][0] + 4 * 10 ** 6
@@ -297,14 +302,17 @@ def bounded(ctx, b):
     # a caption shown for a few frames only, the next one loaded right behind it on the same line: whether it is
     # a flash is decided AFTER a gap under five frames has been closed
     for drop, dbl in itertools.product([True, False], repeat=2):
-        for shown, gap in itertools.product([0, 1, 2, 5], [0, 1, 2, 5]):
-            words = [("ENM", True), ("RCL", True), ("PAC", True), ("T1", False), ("EOC", True)] + [("NUL", False)] * shown + \
-                    [("EDM", True)] + [("NUL", False)] * gap + [("RCL", True), ("PAC", True), ("T2", False), ("EOC", True)] + \
+        for shown, gap, short in itertools.product([0, 1, 2, 5], [0, 1, 2, 5], [True, False]):
+            t1, t2 = ("S1", "S2") if short else ("T1", "T2")
+            words = [("ENM", True), ("RCL", True), ("PAC", True), (t1, False), ("EOC", True)] + [("NUL", False)] * shown + \
+                    [("EDM", True)] + [("NUL", False)] * gap + [("RCL", True), ("PAC", True), (t2, False), ("EOC", True)] + \
                     [("NUL", False)] * 30 + [("EDM", True)]
 
             def quick(words=words, drop=drop, dbl=dbl):
                 doc, timeline = encode([(60, words)], drop, dbl)
                 ref = reference_times(timeline, drop, 0)
+                if reference_times(timeline, drop, 0, band=2) != ref:
+                    return True, None       # a gap of exactly five frames: inside the tolerance band of the threshold
                 flashes = any(0 < e - s < 50000 for s, e in ref)
                 try:
                     cs = _SHARED_READER.read(doc)
@@ -315,7 +323,7 @@ def bounded(ctx, b):
                 got = [(c_.start, c_.end) for c_ in cs.get_captions("en-US")]
                 ok = len(got) == len(ref) and all(abs(Fraction(g[0]) - r_[0]) <= 1 and abs(Fraction(g[1]) - r_[1]) <= 1 for g, r_ in zip(got, ref))
                 return ok, {"got": got, "expected": [(float(s), float(e)) for s, e in ref], "doc": doc}
-            b.guard(("quick", drop, dbl, shown, gap), quick, sample={"frames_shown": shown + 1, "frames_to_next_caption": gap + 4, "drop": drop, "doubled": dbl})
+            b.guard(("quick", drop, dbl, shown, gap, short), quick, sample={"frames_shown": shown + 1, "padding_before_next_caption": gap, "short_text": short, "drop": drop, "doubled": dbl})
     # an unterminated final caption split over non-adjacent rows lasts four seconds in all its parts
     for drop in (True, False):
         def two(drop=drop):
